@@ -217,7 +217,7 @@ func c10Census(c *core.Ctx) (sources []unorderedSource, unorderedFns map[*ssa.Fu
 			for _, ci := range core.Calls(f) {
 				if cal := core.Callee(ci.Common()); cal != nil {
 					switch cal.String() {
-					case core.Mod + "/util/sort2.Slice", "sort.Slice", "sort.SliceStable", "sort.Strings", "sort.Sort", "sort.Stable":
+					case core.Mod + "/util/sort2.Slice", "sort.Slice", "sort.SliceStable", "sort.Strings", "sort.Sort", "sort.Stable", "slices.Sort", "slices.SortFunc", "slices.SortStableFunc":
 						return true
 					}
 					if cal.Name() == "SortOrderedComponents" {
@@ -525,8 +525,31 @@ func strictlySorted(c *core.Ctx, call *ssa.Call) (ssa.Value, string) {
 			return nil, why
 		}
 		return core.Norm(mi.X), ""
-	case cal.String() == "sort.Strings" || cal.String() == "sort.Ints":
+	case cal.String() == "sort.Strings" || cal.String() == "sort.Ints" || cal.String() == "slices.Sort":
 		return core.Norm(com.Args[0]), ""
+	case cal.String() == "slices.SortFunc" || cal.String() == "slices.SortStableFunc":
+		// a three-way comparator that is the standard ordering of its two parameters
+		cmpFn := core.ClosureOf(com.Args[1])
+		if f, isFn := com.Args[1].(*ssa.Function); isFn {
+			cmpFn = f
+		}
+		if cmpFn == nil {
+			return nil, "the comparator handed to " + cal.String() + " is not visible"
+		}
+		if n := cmpFn.String(); n == "strings.Compare" || strings.HasPrefix(n, "cmp.Compare") {
+			return core.Norm(com.Args[0]), ""
+		}
+		if len(cmpFn.Blocks) == 1 && len(cmpFn.Params) == 2 {
+			if ret, isRet := cmpFn.Blocks[0].Instrs[len(cmpFn.Blocks[0].Instrs)-1].(*ssa.Return); isRet && len(ret.Results) == 1 {
+				if call, isCall := ret.Results[0].(*ssa.Call); isCall {
+					if inner := core.Callee(call.Common()); inner != nil && (inner.String() == "strings.Compare" || inner.String() == "cmp.Compare") && len(call.Common().Args) == 2 &&
+						call.Common().Args[0] == ssa.Value(cmpFn.Params[0]) && call.Common().Args[1] == ssa.Value(cmpFn.Params[1]) {
+						return core.Norm(com.Args[0]), ""
+					}
+				}
+			}
+		}
+		return nil, "the comparator handed to " + cal.String() + " is not the standard ordering of its two parameters"
 	case cal.String() == "sort.Sort" || cal.String() == "sort.Stable":
 		mi, ok := com.Args[0].(*ssa.MakeInterface)
 		if !ok {
@@ -717,6 +740,8 @@ func c10(c *core.Ctx, r *core.Report) {
 				}
 			}
 			r.Check(okF, "C10.R1", cons, pos, "SETLIKE: the map is only fanned out, one goroutine per entry, all awaited (WaitGroup protocol)")
+		case s.kind == "maprange" && scanFansOut(c, s.fn):
+			r.Hold("C10.R1", cons, pos, "SETLIKE: the entries are handed to the goroutines of the definition scan (scan table: every scanner call is made by a goroutine the scan started, every entry is shown to every scanner exactly once, all joined before the scan returns)")
 		case s.kind == "maprange" && readsNeitherKeyNorValue(s.in):
 			r.Hold("C10.R1", cons, pos, "EMPTINESS: the range reads neither keys nor values (it only finds out whether there is an entry, or counts them)")
 		case s.key == "maprange@(component_definition.TagArg).ForEach" || (s.kind == "maprange" && sortedCollectorOK(c, s)):
